@@ -60,6 +60,14 @@ Theorem C08_paused_never_time_promoted : forall ann oc a u now,
 Proof. exact paused_not_time_promoted. Qed.
 Print Assumptions C08_paused_never_time_promoted.
 
+(** "a canary resumes on ... explicit validation": the canary-valid annotation naming the new replica set promotes it,
+    paused or not, unless it is failed. *)
+Theorem C08_resumes_on_validation : forall ann oc a u now,
+  canary_valid ann (r_name u) = true -> canary_failed_rs (r_status u) = false ->
+  fst (select_current ann oc (Some a) u now) = u.
+Proof. exact validated_promotes. Qed.
+Print Assumptions C08_resumes_on_validation.
+
 (** status.state: Frozen before Paused before Running when no canary is active; Canary Paused (with the
     reason) iff paused while one is. *)
 Theorem C08_state_no_canary : forall ann,
